@@ -96,5 +96,5 @@ SPEC = dict(
                'only through a wrong gain; the float and long double builds (A_SIZE_REAL=4 / 16) execute the compact companion h_pid_w.c only (histories <= 96 steps, triangular membership tables, '
                'neuron judged by the one-step oracle), not the full history/table/operator plan of h_pid.c; the C++ wrappers are not executed',
     technique='exact-arithmetic reference recurrence (bitwise) + one-step binary128 oracle + range/clamp monitors + zero-vs-fresh twin '
-              'controllers, exact-size scratch buffer under ASan+UBSan',
+              'controllers, exact-size scratch buffer under ASan+UBSan; float / long double companion; C++ member vs C function twin execution',
 )
